@@ -132,6 +132,7 @@ class Explorer(Ctx):
         self.model = None
         self.pc = []
         self.memo = {}
+        self.consults = 0
         self.exhaustive = False
 
     # -- variables ---------------------------------------------------------
@@ -170,6 +171,7 @@ class Explorer(Ctx):
         return r, m
 
     def decide(self, e):
+        self.consults += 1
         if e is True or e is False:
             return e
         k = e.get_id()
@@ -189,6 +191,7 @@ class Explorer(Ctx):
 
     def choose(self, name, n):
         """finite selector 0 <= v < n (global domain constraint, added once)"""
+        self.consults += 1
         if n <= 1:
             return 0
         v = self.int(name)
